@@ -30,7 +30,9 @@ class PCN(Sampler):  # Refactor to Proposal-based sampler?
     def step(self):
         # propose state
         xi = self.prior.sample(1).flatten()   # sample from the prior
-        x_star = np.sqrt(1-self.scale**2)*self.current_point + self.scale*xi   # PCN proposal
+        # PCN proposal (reversible w.r.t. the prior N(m, C) also for a non-zero prior mean m)
+        m = self._prior_mean()
+        x_star = m + np.sqrt(1-self.scale**2)*(self.current_point - m) + self.scale*(xi - m)
 
         # evaluate target
         loglike_eval_star =  self._loglikelihood(x_star) 
@@ -61,6 +63,13 @@ class PCN(Sampler):  # Refactor to Proposal-based sampler?
         
     def _loglikelihood(self, x):
         return self.likelihood.logd(x)
+
+    def _prior_mean(self):
+        """ Mean of the (Gaussian) prior; 0 if the prior does not expose a fixed mean. """
+        m = getattr(self.prior, 'mean', None)
+        if m is None or callable(m):
+            return 0
+        return m
 
     @property
     def dim(self): # TODO. Check if we need this. Implemented in base class
